@@ -94,9 +94,14 @@ def main():
                 cur = line.split("property=")[1].split()[0]
             if line.startswith("FAILED-OBLIGATION") and cur:
                 caught.setdefault(cur, []).append(line[:400])
-        # the registered quick command of the targeted property
-        rcq, outq = run(["./check.sh", prop, "quick"], "/verif")
-        log["quick_cmd_exit"] = rcq
+        # the registered quick command of the targeted property (on refresh runs the exit status is derived from the
+        # combined run above: 1 iff the target property reported a failed obligation)
+        if skip_confirm:
+            log["quick_cmd_exit"] = 1 if prop in caught else 0
+        else:
+            # same binary and arguments as ./check.sh <prop> quick, but without rewriting /verif/evidence from a patched tree
+            rcq, outq = run(["/verif/bin/gaeacheck", "-prop", prop, "-tier", "quick", "-no-evidence"], "/verif")
+            log["quick_cmd_exit"] = rcq
     finally:
         run(["git", "-C", "/repo", "checkout", "--", "."], "/repo")
         run(["git", "-C", "/repo", "reset", "-q"], "/repo")
